@@ -35,6 +35,22 @@ def _iter_self_value(t) -> bool:
         s.args[0], lambda u: isinstance(u, App) and u.op == "attr:value"))
 
 
+def source_with_helpers(repo, f, _depth=0) -> str:
+    """Source text of a function for cheap pre-filters ("does it mention X at all"), with the text of the helpers it calls that the
+    rules have never seen (see Evaluator.is_new_helper) appended: what moved into such a helper still counts as written in f."""
+    from sa.absint import _known_functions
+    known = _known_functions()
+    src = ast.unparse(f.node)
+    if known is None or _depth >= 3:
+        return src
+    called = {n.func.attr if isinstance(n.func, ast.Attribute) else n.func.id for n in ast.walk(f.node)
+              if isinstance(n, ast.Call) and isinstance(n.func, (ast.Attribute, ast.Name))}
+    for g in repo.all_functions():
+        if g is not f and g.name in called and g.fq not in known:
+            src += "\n" + source_with_helpers(repo, g, _depth + 1)
+    return src
+
+
 def container_puts(o):
     """[(kind, key or None, value)]: every value an outcome places into a container under construction, whatever the way it is
     written - subscript stores ('store'), append / insert / add / extend / update calls ('call'; the items of a tuple or list literal
